@@ -6,8 +6,8 @@ from .grouplike import sf
 
 PROPERTY = "C11"
 LEVEL = "other"
-CONFIGS_QUICK = ["std", "alloc"]
-CONFIGS_THOROUGH = ["std", "alloc"]
+CONFIGS_QUICK = ["std", "alloc", "std-rel"]
+CONFIGS_THOROUGH = ["std", "alloc", "std-rel", "alloc-rel"]
 EXPLANATION = (
     "Inductive-invariant check on the MIR of FutureGroup: every mutator and the poll body preserve the representation invariant "
     "REP: keys = occupied slab slots = {i | states[i] = Pending}, capacity = |states| = |wakers| > every live key; the observers "
